@@ -67,4 +67,19 @@ CLAIMED = {
              "strace injection (per-thread counting, pinned child). One genuine defect was found by this check and "
              "repaired in /repo (fix: d44e103, known_findings.jsonl).",
         tech="Lean 4 proofs over an OS-file model + regenerated facts + differential correspondence + strace fault/kill injection"),
+    "C12": dict(
+        text="Machine-checked proofs (Lean 4 kernel): the MemFs model (Go maps as association lists, inode numbers "
+             "len(inodes)+1, descriptors from a counter) refines the reference model Ref on every valid history "
+             "(simulation preserved by each of the ten operations, lifted by induction over histories); Ref-level "
+             "theorems give exclusive Create, fresh descriptors, shared hard links, Delete keeping open files, exact "
+             "ReadAt ranges and exact List. DirFs (system calls over a modelled OS tree) is an executable model "
+             "whose refinement proof is not finished: DirFs = Ref is currently established by correspondence only. "
+             "Tie: regenerated declarations and system calls with evaluated flags of machine/filesys (rfl against "
+             "committed expectations) and differential runs of real MemFs/DirFs (direct and through the wrappers) "
+             "against the compiled Ref model with shrinking.",
+        ref="DESIGN.md §6 C12",
+        note="Trusted: Linux directory/file system calls behave as Ref expects (sampled); hand-written models tied by "
+             "canonical text + sampling; aliasing is observed by the harness overwriting every passed/returned slice. "
+             "One genuine defect found by this check and repaired (fix: db91167).",
+        tech="Lean 4 refinement proof (MemFs) + regenerated facts + differential correspondence (MemFs, DirFs, wrappers)"),
 }
